@@ -82,6 +82,21 @@ def main(seed, nsessions, out):
                         a.volume()
             except Exception:  # noqa: BLE001  (unsupported pairs raise; they are logged with their exception)
                 pass
+    # the solver on small integer / Fraction systems (exact arithmetic): truthiness, varargs and the returned tuples
+    from fractions import Fraction
+    for _ in range(nsessions * 2):
+        rows, cols = rng.choice(((1, 3), (2, 3), (1, 4), (2, 4), (3, 3), (3, 4)))
+        m = [[Fraction(rng.randint(-2, 2)) for _ in range(cols)] for _ in range(rows)]
+        if rng.random() < 0.3:
+            for r in m:
+                r[0] = Fraction(0)
+        try:
+            sol = solve(m)
+            if sol:
+                for _k in range(2):
+                    sol(*[Fraction(rng.randint(-4, 4), rng.choice((1, 2, 3))) for _ in range(sol.varargs)])
+        except Exception:  # noqa: BLE001
+            pass
     stats = recorder.dump(out)
     print(json.dumps(stats))
 
